@@ -197,10 +197,10 @@ def abs_(a):
     if g is not a and k != 0:
         return scale(abs_(g), abs(k))
     if a[0] == 'lin':
-        # sign-normalise: first generator coefficient positive
+        # normalise |k*L| = |k|*|L| with the first generator coefficient of L equal to +1
         first = a[1][0][1]
-        if first < 0:
-            a = neg(a)
+        if first != 1:
+            return scale(abs_(scale(a, Fr(1) / first)), abs(first))
     return ('abs', a)
 
 
